@@ -70,6 +70,7 @@ type Step struct {
 	On      string `json:"on,omitempty"` // connect / reconnect: frame label, e.g. "c2s:HEL", "s2c:ActivateSession"
 	Fault   Fault  `json:"fault"`
 	PauseMs int    `json:"pause_ms"`
+	PauseUs int    `json:"pause_us,omitempty"` // additional pause in microseconds (to sweep the first milliseconds of a reconnect)
 }
 
 // Case is the replayable unit.
@@ -80,6 +81,15 @@ type Case struct {
 	Connect    *Step  `json:"connect,omitempty"`
 	Steps      []Step `json:"steps"`
 	CloseEarly bool   `json:"close_early,omitempty"` // Close right after the last step (no heal before)
+	// CloseOn (with CloseEarly): after the last step the connection is reset (if
+	// there is one) and Close is called CloseDelayUs microseconds after the named
+	// frame of the following reconnect attempt has passed the proxy
+	CloseOn      string `json:"close_on,omitempty"`
+	CloseDelayUs int    `json:"close_delay_us,omitempty"`
+	// Burst > 0: the fixed script "reset at idle, Close i*BurstStepUs microseconds
+	// later" for Burst clients (i = 0..Burst-1) at once (see executeBurst)
+	Burst       int `json:"burst,omitempty"`
+	BurstStepUs int `json:"burst_step_us,omitempty"`
 	// filled on failure (informational)
 	Observed *Observed `json:"observed,omitempty"`
 }
@@ -144,6 +154,13 @@ func genCase(t *rapid.T) Case {
 		TimeoutMs:  rapid.SampledFrom([]int{500, 700, 1000}).Draw(t, "timeout"),
 		Observer:   rapid.SampledFrom([]string{"func", "chan", "both"}).Draw(t, "observer"),
 	}
+	if rapid.IntRange(0, 11).Draw(t, "burst") == 0 {
+		c.Burst = rapid.IntRange(6, 16).Draw(t, "burstClients")
+		c.BurstStepUs = rapid.IntRange(50, 600).Draw(t, "burstStepUs")
+		c.Steps = []Step{{At: "idle", Fault: Fault{Kind: "rst"}}}
+		c.CloseEarly = true
+		return c
+	}
 	if rapid.IntRange(0, 9).Draw(t, "connectFault") < 2 {
 		st := Step{At: "connect", On: rapid.SampledFrom(connectFrames).Draw(t, "connectOn"), Fault: genFault(t, c.TimeoutMs)}
 		c.Connect = &st
@@ -174,6 +191,16 @@ func genCase(t *rapid.T) Case {
 		c.Steps = append(c.Steps, st)
 	}
 	c.CloseEarly = rapid.IntRange(0, 9).Draw(t, "closeEarly") < 2
+	if c.CloseEarly && rapid.Bool().Draw(t, "closeOnFrame") {
+		// Close while a named step of the reconnect is in flight / has just completed
+		c.CloseOn = rapid.SampledFrom(reconnectFrames[:10]).Draw(t, "closeOn")
+		c.CloseDelayUs = rapid.IntRange(0, 400).Draw(t, "closeDelayUs")
+	} else if c.CloseEarly && rapid.Bool().Draw(t, "closeInFirstMilliseconds") {
+		// Close within the first milliseconds after the last fault: the reconnect is under way
+		last := &c.Steps[len(c.Steps)-1]
+		last.PauseMs = 0
+		last.PauseUs = rapid.IntRange(0, 5000).Draw(t, "pauseUs")
+	}
 	return c
 }
 
@@ -191,6 +218,12 @@ const (
 type stateLog struct {
 	name string
 	log  []int
+	at   []time.Time // when the entry was recorded by the harness
+}
+
+func (sl *stateLog) add(v int) {
+	sl.log = append(sl.log, v)
+	sl.at = append(sl.at, time.Now())
 }
 
 type observer struct {
@@ -209,7 +242,7 @@ func newObserver(kind string) (*observer, []opcua.Option) {
 		o.fn = &stateLog{name: "StateChangedFunc"}
 		opts = append(opts, opcua.StateChangedFunc(func(s opcua.ConnState) {
 			o.mu.Lock()
-			o.fn.log = append(o.fn.log, int(s))
+			o.fn.add(int(s))
 			o.mu.Unlock()
 		}))
 	}
@@ -244,7 +277,7 @@ func (o *observer) drainLocked() {
 	for {
 		select {
 		case s := <-o.c:
-			o.ch.log = append(o.ch.log, int(s))
+			o.ch.add(int(s))
 		default:
 			return
 		}
@@ -258,10 +291,10 @@ func (o *observer) mark(m int) {
 	o.mu.Lock()
 	o.drainLocked()
 	if o.fn != nil {
-		o.fn.log = append(o.fn.log, m)
+		o.fn.add(m)
 	}
 	if o.ch != nil {
-		o.ch.log = append(o.ch.log, m)
+		o.ch.add(m)
 	}
 	o.mu.Unlock()
 }
@@ -301,33 +334,47 @@ func renderLog(l []int) string {
 	return b.String()
 }
 
-// judgeLog applies the state machine of the documentation to one log.
-func judgeLog(sl *stateLog) string {
+// closeGrace: Close does not wait for the monitor goroutine. A notification
+// (or a State() value) that goroutine was just producing when Close returned
+// cannot be told from one produced a moment before Close returned, and the
+// documentation does not promise silence from that instant on. What is
+// demanded: from closeGrace after the return on, nothing but Closed.
+const closeGrace = 100 * time.Millisecond
+
+// judgeLog applies the state machine of the documentation to one log. grace is
+// the tolerance after the return of Close; late counts the non-Closed reports
+// that fell into it.
+func judgeLog(sl *stateLog, grace time.Duration) (verdict string, late int) {
 	connected, closeReturned := false, false
+	var tClose time.Time
 	for i, s := range sl.log {
 		switch {
 		case s == markCloseRet:
 			closeReturned = true
+			tClose = sl.at[i]
 		case s < 0:
 		case s > 4:
-			return fmt.Sprintf("%s reported the undocumented state %d (entry %d)", sl.name, s, i)
+			return fmt.Sprintf("%s reported the undocumented state %d (entry %d)", sl.name, s, i), late
 		default:
 			st := opcua.ConnState(s)
 			if closeReturned && st != opcua.Closed {
-				return fmt.Sprintf("%s reported %s after Close had returned", sl.name, stateNames[s])
+				if d := sl.at[i].Sub(tClose); d > grace {
+					return fmt.Sprintf("%s reported %s %v after Close had returned", sl.name, stateNames[s], d.Round(time.Millisecond)), late
+				}
+				late++
 			}
 			if st == opcua.Connected {
 				connected = true
 			}
 			if st == opcua.Connecting && connected {
-				return fmt.Sprintf("%s reported Connecting (\"for the first time\") after the client had been Connected", sl.name)
+				return fmt.Sprintf("%s reported Connecting (\"for the first time\") after the client had been Connected", sl.name), late
 			}
 			if st == opcua.Reconnecting && !connected {
-				return fmt.Sprintf("%s reported Reconnecting (\"previously connected\") before the client was ever Connected", sl.name)
+				return fmt.Sprintf("%s reported Reconnecting (\"previously connected\") before the client was ever Connected", sl.name), late
 			}
 		}
 	}
-	return ""
+	return "", late
 }
 
 // ---------------------------------------------------------------------------
@@ -730,6 +777,9 @@ func sortedGoroutines(m map[int]string) []string {
 
 // execute runs the case once. fresh = use a server pair of its own.
 func execute(c Case, fresh bool) (res result, err error) {
+	if c.Burst > 0 {
+		return executeBurst(c, fresh)
+	}
 	poolMu.Lock()
 	defer poolMu.Unlock()
 	var p *pool
@@ -878,14 +928,29 @@ func execute(c Case, fresh bool) (res result, err error) {
 			if r.infra != nil {
 				break
 			}
-			if st.PauseMs > 0 {
-				time.Sleep(time.Duration(st.PauseMs) * time.Millisecond)
+			if d := time.Duration(st.PauseMs)*time.Millisecond + time.Duration(st.PauseUs)*time.Microsecond; d > 0 {
+				time.Sleep(d)
 			}
 			if s := int(cl.State()); s < 0 || s > 4 {
 				fail(false, "State() returned the undocumented value %d", s)
 			}
 		}
 		early = c.CloseEarly
+		if early && c.CloseOn != "" && r.infra == nil {
+			tr := fn.arm(c.CloseOn, true, Fault{Kind: "signal"})
+			if cl.State() == opcua.Connected {
+				fn.kill(false)
+			}
+			select {
+			case <-tr.ch:
+				r.hit = true
+				r.class("close-on-reconnect-frame:%s", c.CloseOn)
+				time.Sleep(time.Duration(c.CloseDelayUs) * time.Microsecond)
+			case <-time.After(3 * time.Second):
+				fn.disarm()
+				r.class("close-on-reconnect-frame(frame-not-seen)")
+			}
+		}
 	}
 	if r.infra != nil {
 		fn.heal()
@@ -983,7 +1048,7 @@ func execute(c Case, fresh bool) (res result, err error) {
 	obs.mark(markCloseRet)
 	tClose := time.Now()
 	if s := cl.State(); s != opcua.Closed {
-		fail(false, "State() is %s right after Close returned", stateNames[int(s)])
+		r.class("State()-not-Closed-right-after-Close(within-grace)")
 	}
 	if early {
 		// whatever the client still does must become visible
@@ -1013,8 +1078,9 @@ func execute(c Case, fresh bool) (res result, err error) {
 	grace := time.Since(tClose)
 	acc0 := fn.tap.Accepted()
 	quietEnd := time.Now().Add(quietWindow)
+	graceNow := max(closeGrace, 10*hbGrace.Worst())
 	for time.Now().Before(quietEnd) {
-		if s := cl.State(); s != opcua.Closed {
+		if s := cl.State(); s != opcua.Closed && time.Since(tClose) > graceNow {
 			fail(false, "State() is %s %v after Close returned", stateNames[int(s)], time.Since(tClose).Round(time.Millisecond))
 		}
 		time.Sleep(20 * time.Millisecond)
@@ -1071,7 +1137,11 @@ func execute(c Case, fresh bool) (res result, err error) {
 		if sl == nil {
 			continue
 		}
-		if v := judgeLog(sl); v != "" {
+		v, late := judgeLog(sl, graceNow)
+		if late > 0 {
+			r.class("non-Closed-report-within-grace-after-Close")
+		}
+		if v != "" {
 			if res.verdict == "" || res.timing {
 				// a history verdict outranks a timing verdict: it needs no bound
 				res.verdict, res.timing = v, false
@@ -1203,8 +1273,20 @@ func TestLifecycle(t *testing.T) {
 	}()
 	// one directed script per shard first: windows that the random scripts hit
 	// only now and then
-	if sh, _ := ev.Shard(); sh < len(directed) && os.Getenv("VERIF_C25_NO_DIRECTED") == "" {
-		c := directed[sh]
+	var first []Case
+	if sh, _ := ev.Shard(); os.Getenv("VERIF_C25_NO_DIRECTED") == "" {
+		if sh < len(directed) {
+			first = append(first, directed[sh])
+		}
+		// every shard: Close right behind the OPN response of a reconnect
+		first = append(first, Case{IntervalMs: 50, TimeoutMs: 500, Observer: []string{"func", "chan", "both"}[sh%3],
+			Steps: []Step{{At: "idle", Fault: Fault{Kind: "rst"}, PauseMs: 100}}, CloseEarly: true, CloseOn: "s2c:OPN", CloseDelayUs: 20 * (sh % 16)})
+		// every shard: Close i*step after a reset, 16 clients, step 40 .. 160 us
+		// (0 .. 0.6 ms up to 0 .. 2.4 ms: the reconnect handshake of an idle machine)
+		first = append(first, Case{IntervalMs: 50, TimeoutMs: 500, Observer: []string{"func", "chan", "both"}[sh%3], Burst: 16, BurstStepUs: 40 + 8*(sh%16),
+			Steps: []Step{{At: "idle", Fault: Fault{Kind: "rst"}}}, CloseEarly: true})
+	}
+	for _, c := range first {
 		rec.Journal("TestLifecycle", c)
 		msg, res, err := decide(&c, func(f string, a ...any) { t.Logf(f, a...) })
 		rec.JournalDone("TestLifecycle")
@@ -1225,10 +1307,25 @@ func TestLifecycle(t *testing.T) {
 			}
 		}
 	}
+	// rapid re-executes the final failing script to make sure it is reproducible.
+	// A failure reported here was already re-executed (timing verdicts 3/3), and one
+	// failing execution costs 25-80 s: a confirmed verdict is remembered per script.
+	type failed struct {
+		msg string
+		c   Case
+	}
+	confirmed := map[uint64]failed{}
 	rapid.Check(t, func(rt *rapid.T) {
 		c := genCase(rt)
+		key := func() uint64 { b, _ := json.Marshal(c); return ev.Hash(b) }()
+		if f, ok := confirmed[key]; ok {
+			rec.Fail(rt, "TestLifecycle", f.c, "%s", f.msg)
+		}
 		rec.Journal("TestLifecycle", c)
 		msg, res, err := decide(&c, func(f string, a ...any) { rt.Logf(f, a...) })
+		if msg != "" {
+			confirmed[key] = failed{msg, c}
+		}
 		rec.JournalDone("TestLifecycle")
 		if err != nil {
 			t.Fatalf("infrastructure failure (not a violation): %v", err)
